@@ -37,11 +37,13 @@ def _shift(o, off, boff):
             _shift(x, off, boff)
 
 
-def eligible(F, caller, fn, no_inline):
+def eligible(F, caller, fn, no_inline, only_private=False):
     key = fn.get("resolved_key") or fn.get("key")
     cb = F.bodies.get(key)
     if cb is None or cb.kind == "Closure" or key in no_inline or key == caller.key:
         return None
+    if only_private and (cb.j.get("vis") in ("pub", "crate") or "trait" in cb.j.get("impl", {})):
+        return None   # functions with a stable name are analysed on their own
     im = cb.j.get("impl", {})
     if "trait" in im:
         return None   # trait methods are API boundaries (and the Mul operators stay symbolic)
@@ -53,11 +55,11 @@ def eligible(F, caller, fn, no_inline):
     return cb
 
 
-def inlined(F, body, no_inline=(), max_depth=4):
+def inlined(F, body, no_inline=(), max_depth=4, only_private=False):
     """merged Body for `body` (the same object if nothing was inlined)"""
     no_inline = frozenset(no_inline)
     cache = F.__dict__.setdefault("_inlined_cache", {})
-    ck = (body.key, no_inline)
+    ck = (body.key, no_inline, only_private)
     if ck in cache:
         return cache[ck]
     j = body.j
@@ -71,7 +73,7 @@ def inlined(F, body, no_inline=(), max_depth=4):
         t = blocks[bi]["term"]
         if t["k"] != "call" or "fn" not in t or depth >= max_depth or blocks[bi].get("cleanup"):
             continue
-        cb = eligible(F, body, t["fn"], no_inline)
+        cb = eligible(F, body, t["fn"], no_inline, only_private)
         if cb is None or cb.key in chain or len(blocks) + len(cb.blocks) > MAX_BLOCKS:
             continue
         off, boff = len(locals_), len(blocks)
